@@ -29,7 +29,7 @@ def run(chk, repo, tier):
     chk.clause('C18-a', 'seed reaches default_rng; all draws come from that generator; nothing else nondeterministic', 10)
     chk.clause('C18-b', 'Poisson shot noise: integer, non-negative, bad inputs translated into ValueError', 3)
     chk.clause('C18-c', 'read noise: zero-mean normal draw with sigma=electrons of the frame shape, added to the frame', 2)
-    chk.clause('C18-d', 'dark frame without FPN equals floor(rate); rule07 forwards its arguments', 2)
+    chk.clause('C18-d', 'dark frame without FPN equals floor(rate), with FPN it stays non-negative; rule07 forwards its arguments', 3)
     chk.clause('C18-e', 'surface error: mask factor, RMS algebra, array shapes agree for non-square masks', 3)
     chk.clause('C18-f', 'cosmic-ray frame has the requested shape and is non-negative', 2)
     chk.clause('C18-h', 'Gaussian shot noise refuses negative and unrepresentably large signals as the Poisson branch does', 2)
@@ -120,6 +120,22 @@ def run(chk, repo, tier):
             okd = p.ret == want
             det = f'returns {fmt(p.ret)}'
     chk.ob('C18-d', 'R-constant', f.key, 'without pattern noise the frame is floor(rate)', okd, det, f.loc())
+    # with pattern noise the frame stays a count of electrons: the pattern factor comes from a distribution on the positive
+    # reals (log-normal), so no pixel goes negative however wide the pattern is
+    oks_, dets_ = None, ''
+    for p in returns(paths):
+        draws = [a for a in nf.value_atoms(p.ret) if is_app(a) and a[1].startswith('m:') and a[1][2:] in
+                 ('lognormal', 'normal', 'standard_normal', 'uniform', 'gamma', 'poisson', 'exponential', 'random', 'laplace', 'logistic')]
+        if not draws:
+            continue
+        r = Ranges(env={('sym', 'rate'): Rng(0, INF), ('sym', 'fpn_factor'): Rng(0, INF)}).of(p.ret)
+        good = r.nonneg
+        oks_ = good if oks_ is None else (oks_ and good)
+        if not good:
+            dets_ = f'pattern factor drawn as {nf.fmt_atom(draws[0])[:90]}; the frame ranges over {r!r}: pixels can hold a negative ' \
+                    'number of electrons'
+    chk.ob('C18-d', 'R-sign', f.key, 'a dark frame with pattern noise is non-negative for every non-negative rate', oks_,
+           dets_ or 'the pattern factor is drawn from a distribution on the positive reals', f.loc())
     fr = repo.func('detector.rule07_dark_current')
     sites = [s for s in bind.sites(repo, fr) if s.callee.key == 'detector.dark_current']
     okf = len(sites) == 1 and not bind.b3_mismatches(sites[0]) and \
